@@ -20,6 +20,7 @@ import (
 func init() {
 	core.Register(&core.Prop{
 		ID:           "C18",
+		MaxBatch: 24,
 		Level:        "exploration",
 		Workers:      8,
 		Race:         true,
@@ -211,6 +212,14 @@ func c18Realtime(c *core.Case) *core.Result {
 		return time.Duration(time.Now().UnixNano()%5) * time.Millisecond
 	})
 	var cls []*rtClient
+	defer func() {
+		for _, x := range cls {
+			func() {
+				defer func() { recover() }()
+				x.cli.Close()
+			}()
+		}
+	}()
 	waitState := func(x *rtClient) bool {
 		select {
 		case <-x.subscribed:
@@ -556,12 +565,6 @@ func c18Realtime(c *core.Case) *core.Result {
 		order = append(order, call.CUID[:4]+call.Method[7:8])
 	}
 	c.Fingerprint(core.Hash(order...))
-	for _, x := range cls {
-		func() {
-			defer func() { recover() }()
-			x.cli.Close()
-		}()
-	}
 	if ncli >= 2 || solo {
 		c.NonTrivial()
 	}
